@@ -46,6 +46,9 @@ func Lift(src string) (f *File, ok bool) {
 	for _, it := range f.Items {
 		f.number(it.Kids)
 	}
+	if n := len(f.Items); n > 0 { // the last item ends the way the source ends
+		f.Items[n-1].Sep = src[len(strings.TrimRight(src, " \t\r\n")):]
+	}
 	return f, true
 }
 
